@@ -91,6 +91,7 @@ class World:
         self._tnow = None
         self._tcalls = 0
         self.socket_fail = 0            # number of upcoming socket() calls that fail with EMFILE
+        self.low_kind = None            # see default_choice
         self.step_hooks = {}            # kernel step number -> callable run by the driver just before that step (fault injection)
         WORLD = self
 
@@ -180,7 +181,16 @@ class World:
             raise HarnessError(f"thread {st} did not reach a scheduling point within 600 s wall time")
 
     def default_choice(self, en):
-        return self.last if self.last in en else en[0]
+        """Run-to-block scheduling: the running thread continues; when it blocks, the enabled thread with the lowest id runs.
+        With `low_kind` set, threads of that kind (e.g. the node's I/O thread) are picked only when nothing else is enabled:
+        a second deterministic policy, under which work piles up for that thread instead of being consumed one item at a time."""
+        if self.last in en:
+            return self.last
+        if self.low_kind is not None:
+            for t in en:
+                if t.kind != self.low_kind:
+                    return t
+        return en[0]
 
     def run(self, max_steps=6_000):
         """Run until no thread is enabled (quiescence).  Returns steps taken."""
